@@ -10,4 +10,10 @@ fn main() {
     for x in &f.all { *units.entry(format!("{:?}", x.unit)).or_insert(0) += 1; }
     println!("{:?}", units);
     for x in f.all.iter().filter(|x| !typable(&x.tokens)).take(8) { println!("untypable {:?}", x.tokens); }
+    let mut tc = std::collections::BTreeMap::new();
+    for x in f.all.iter().filter(|x| typable(&x.tokens)) { *tc.entry(x.tokens.len()).or_insert(0) += 1; }
+    println!("typable constants by token count {:?}", tc);
+    let mut minlen = std::collections::BTreeMap::new();
+    for x in f.all.iter() { for t in &x.tokens { *minlen.entry(t.chars().count().min(4)).or_insert(0) += 1; } }
+    println!("token length histogram (4 = 4+) {:?}", minlen);
 }
